@@ -7,6 +7,7 @@ CONSTANTS
   MaxCycles = 3
   DedupModes = {"shrink"}
   TagUnion = FALSE
+  PlainDistinct = FALSE
   RecoverOnCrash = TRUE
   ListAllEntries = FALSE
   Emit = FALSE
